@@ -60,6 +60,17 @@ def oracle(tree, lines):
                 return "Enter sequence differs from the pre-order"
             if len(l.split()) - 1 != 2 * len(exp):
                 return "event count is not 2 x nodes"
+        elif l.startswith("advev ") or l.startswith("multiev"):
+            # the event view of an iterator with several pending nodes: its Enter sequence is what plain iteration
+            # of the same iterator yields (the rest of the pre-order after k steps; the root twice)
+            w = l.split()
+            k = int(w[1]) if w[0] == "advev" else None
+            en = py_events_ok("events " + " ".join(w[2:] if k is not None else w[1:]))
+            want = exp[k:] if k is not None else exp + exp
+            if en is None:
+                return "event view of an iterator with several pending nodes is not properly nested (%s)" % " ".join(w[:2])
+            if en != want:
+                return "event view of an iterator with several pending nodes: its Enter sequence differs from the plain iteration (%s)" % " ".join(w[:2])
         elif l.startswith("sub "):
             p = l.split()
             i = int(p[1])
@@ -177,7 +188,7 @@ def check(ctx):
         if plain:
             m.add("tree", "nodeinfo,iter", dbgtree.sexp(tree, kinds))
         mcases.append(m)
-        keep = [l for l in lines if l.split()[0] in ("iter", "events", "sub", "subev", "unwrap", "unwraploc", "n")]
+        keep = [l for l in lines if l.split()[0] in ("iter", "events", "advev", "multiev", "sub", "subev", "unwrap", "unwraploc", "n")]
         # order: raw run (iter, events, sub..) then api run (iter? nodeinfo)
         implsel[cid] = keep
     model = run_model("tree", mcases, "c16", timeout=1800)
